@@ -220,6 +220,10 @@ orc_compiler_c64x_c_assemble (OrcCompiler *compiler)
   int align_var;
 
   align_var = get_align_var (compiler);
+  if (align_var < 0) {
+    /* no array variable: the error has been recorded */
+    return;
+  }
 
   switch (compiler->max_var_size) {
     case 1:
